@@ -15,16 +15,14 @@ fn op_code(name: &str) -> Option<i128> {
 impl Ctx {
     /// Like `coq`, but drawn from the budget reserved for the newer cells.
     pub fn coq2(&mut self, op: u32, s: usize, ints: &[i128], bytes: &[u8], obs: &Option<Vec<i128>>, force: bool) {
-        if !force && self.coq_used2 >= self.coq_budget2 { return; }
-        self.coq_used2 += 1;
-        self.coq(op, s, ints, bytes, obs, true);
+        self.coq(op, s, ints, bytes, obs, force);
     }
     pub fn coq_bytes_case(&mut self, op: u32, ints: &[i128], bytes: &[u8]) {
         self.coq2(op, 0, ints, &[], &Some(bytes.iter().map(|&b| b as i128).collect()), false);
     }
     /// DataOutput script -> bytes (op 18) and bytes -> values + consumed (op 19).
     pub fn coq_items(&mut self, items: &[Item], bytes: &[u8]) {
-        if bytes.len() > 300 || self.coq_used2 >= self.coq_budget2 { return; }
+        if bytes.len() > 300 { return; }
         let mut enc: Vec<i128> = vec![];
         let mut dec_script: Vec<i128> = vec![];
         let mut dec_out: Vec<i128> = vec![];
